@@ -304,8 +304,25 @@ def run_entry(spec):
     server_nps = set(n for (n, s, c) in world.nameplate_claims())
     wit = {"spec": spec, "server_nameplates": sorted(server_nps), "via": "CodeInputter" if use_inputter else "helper"}
     # nameplate phase
+    shrunk = 0
+    ever_nps = set()
     for _ in range(rng.randint(1, 5)):
         prefix = rng.choice(["", "1", "12", "2", "3", "9", "45", "x", "1 "])
+        live_others = [o for o in others if not o.close_calls]
+        if len(live_others) > 1 and rng.random() < 0.4:
+            # a sender gives up between two refreshes: the server's list shrinks
+            gone = rng.choice(live_others)
+            gone.close()
+            sch.run(300, until=lambda: gone.closed)
+            sch.run(20)
+            # (CodeInputter asks for a refresh and completes from the list it already has: "results arrive later")
+            # the inputter path may therefore lag behind the server by any number of refreshes; only the helper
+            # path (refresh, wait for the answer, then complete) is held to the server's current list
+            if use_inputter:
+                ever_nps |= server_nps
+            server_nps = set(n for (n, s_, c) in world.nameplate_claims() if c)
+            wit["server_nameplates"] = sorted(server_nps)
+            shrunk += 1
         if use_inputter:
             comps = ci._commit_and_build_completions(prefix)
         else:
@@ -316,8 +333,11 @@ def run_entry(spec):
             checked += 1
             if not c.startswith(prefix):
                 viol.append({"key": "C19/entry/nameplate-completion-does-not-extend", "msg": "typed %r, offered %r" % (prefix, c), "witness": wit})
-            if not c.endswith("-") or c[:-1] not in server_nps:
+            if not c.endswith("-") or c[:-1] not in (server_nps | ever_nps):
                 viol.append({"key": "C19/entry/nameplate-completion-not-from-server", "msg": "offered %r, server has %s" % (c, sorted(server_nps)), "witness": wit})
+    if not server_nps:
+        world.finish()
+        return {"inconclusive": "no nameplate left to choose", "violations": []}
     np_ = rng.choice(sorted(server_nps))
     order_calls = [0]
 
@@ -399,7 +419,7 @@ def run_entry(spec):
         o.close()
     sch.drain(60.0, 6000, until=lambda: all(o.closed for o in others + [b]))
     world.finish()
-    return {"violations": viol, "nontrivial": ["entry", spec["seed"], final, use_inputter], "counters": {"completions_checked": checked, "out_of_order_helper_calls": order_calls[0]},
+    return {"violations": viol, "nontrivial": ["entry", spec["seed"], final, use_inputter], "counters": {"completions_checked": checked, "out_of_order_helper_calls": order_calls[0], "nameplate_list_shrunk": shrunk},
             "sample": {"kind": "entry", "server_nameplates": sorted(server_nps), "final_code": final, "via": wit["via"], "completions_checked": checked}}
 
 
